@@ -78,3 +78,12 @@ def r7_conversion(run, tree):
 
 
 RULES = [r1_forwarding, r2_lifting, r3_cross, r4_norm, r5_dot, r6_construction, r7_conversion]
+
+
+def t_pair_space(run, tree):
+    run.rule("C09.T1", "thorough: v op w, v op Array, v op Quantity for + - * / over all ordered pairs of 10 units and 1-3 components: component-wise on physical quantities", "D7 fold of core/vector.py and core/array.py with dispatching numpy models and symbolic-scale units", "", floor=12)
+    from . import quantity_stack as qs
+    qs.check_vector_pair_space(run, tree)
+
+
+THOROUGH_RULES = [t_pair_space]
